@@ -132,7 +132,8 @@ def req_json(rid, src, dst, inc=(), bidir=False, mode='mode 1', bandwidth=100e9)
     r = {'request-id': str(rid), 'source': src, 'destination': dst, 'src-tp-id': src, 'dst-tp-id': dst,
          'bidirectional': bool(bidir),
          'path-constraints': {'te-bandwidth': {'technology': 'flexi-grid', 'trx_type': 'Voyager', 'trx_mode': mode,
-                                               'effective-freq-slot': [{'N': None, 'M': None}], 'spacing': 50e9,
+                                               'effective-freq-slot': [{'N': None, 'M': None}],
+                                               'spacing': 75e9 if mode == 'mode 2' else 50e9,
                                                'path_bandwidth': bandwidth}}}
     if inc:
         r['explicit-route-objects'] = {'route-object-include-exclude': [
